@@ -266,6 +266,13 @@ def partitions(ck, an):
         vals = [ast.unparse(x.value) for x in st if isinstance(x, ast.Assign)]
         ck.check(vals == ["defaultdict(list)"], "IDIOM", "S2.partitions-default-empty", subj, fa.f.loc, f"{attr} is a fresh defaultdict(list): a step without events of that kind yields an empty batch",
                  f"{attr} = {vals}", construct=f"self.{attr} = defaultdict(list)")
+    # every call rebuilds the partitions from the current events: no early return before the loop
+    builds = [x for x in assigns_to_attr(fa, "_partition_latent") + assigns_to_attr(fa, "_partition_nonlatent")]
+    bn = {fa.node_of(x).id for x in builds}
+    early = [r for r in returns_in(fa)]
+    ck.check(not early and bool(bn) and all(fa.cfg.every_path_from_passes(fa.cfg.entry.id, {fa.node_of(x).id}) for x in builds) and fa.cfg.every_path_from_passes(fa.cfg.entry.id, {head.id}),
+             "PATHCOUNT", "S2.partitions-always-rebuilt", subj, fa.loc(early[0]) if early else fa.f.loc, "every (non-raising) call of _create_partitions rebuilds both partitions from self.events",
+             "_create_partitions can return without rebuilding the partitions (stale partitions when events or the grid changed)", construct=stmt_text(early[0]) if early else "early return")
     # ownership of the partitions
     for attr in ("_partition_latent", "_partition_nonlatent"):
         own_writers(ck, an, "S2.partitions-written-once", "Transmitter", attr, {"Transmitter._create_partitions", "Transmitter.__init__"}, min_sites=1)
